@@ -257,7 +257,10 @@ def gen_calls(rng: random.Random) -> Dict[str, Any]:
                 calls.append(['segment', cursor, max(length, call[5] + call[5] % 2), call[3], call[4], call[5] - call[5] % 2])
                 cursor += max(length, call[5]) + 2 + 2 * rng.choice([0, 3])
                 cursor += cursor % 2
-    return {'w': w, 'calls': calls, 'flaws': sorted(set(flaws)), 'preset': rng.randrange(10), 'resume': resume}
+    reuse = rng.random() < 0.3
+    if reuse:
+        flaws.append('caller-reuses-its-lists')
+    return {'w': w, 'calls': calls, 'flaws': sorted(set(flaws)), 'preset': rng.randrange(10), 'resume': resume, 'caller_reuses_lists': reuse}
 
 
 # ------------------------------------------------------------------------------ model + oracle
@@ -304,7 +307,13 @@ def drive_writer(case: Dict[str, Any], version: int, path: Path, accepted: Optio
             try:
                 if call[0] == 'data':
                     starts.append(None)
-                    starts[-1] = writer.add_data(list(call[1]))
+                    passed = list(call[1])
+                    starts[-1] = writer.add_data(passed)
+                    if case.get('caller_reuses_lists'):
+                        # the caller's list is the caller's: it is scribbled on / refilled right after the call (a scratch buffer)
+                        passed[:] = [(~x) & 0xFF for x in passed][::-1] + [7, 7]
+                        if index % 2:
+                            passed.clear()
                 else:
                     _, start, length, ref, off, dl = call
                     if starts[ref] is None:
@@ -465,6 +474,21 @@ def shard_assembled(spec: Dict[str, Any]) -> Dict[str, Any]:
     mine = programs[spec['shard']::spec['shards']]
     if spec['tier'] == 'quick':
         mine = mine[:3]
+    # layouts the corpus does not have: segments that only reserve space between / after segments that hold code
+    rng = rng_for(spec['seed'], PROPERTY, 'assembled', spec['shard'])
+    for k in range(2 if spec['tier'] == 'quick' else 12):
+        gap = rng.choice([1 << 12, 1 << 16, 1 << 20])
+        pieces = ['stl.startup\n;fj_code\n']
+        address = gap
+        for _ in range(rng.choice([1, 2, 3])):
+            pieces.append(f'segment {address}\nreserve {64 * rng.choice([2, 8, 64, 2000])}\n')
+            address += gap
+        pieces.append(f'segment {address}\nfj_code:\nstl.output "L{k}"\nstl.loop\n')
+        if rng.random() < 0.5:
+            pieces.append(f'segment {address + gap}\nreserve 128\n')
+        path = engines.tmpdir() / f'reserve_only_segments_{k}.fj'
+        path.write_text(''.join(pieces))
+        mine = mine + [path]
     for program in mine:
         text = program.read_text()
         use_stl = 'no-stl' not in program.name and 'simple.fj' != program.name
